@@ -59,7 +59,11 @@ type MapSlot struct {
 	K, V Value
 }
 type VMapC struct{ Slots []MapSlot } // heap content of a map object
-type VIter struct{ Obj *Object }     // iterator handle; heap content *VIterC
+type IterAlt struct {
+	G   *Term
+	Obj *Object
+}
+type VIter struct{ Alts []IterAlt } // iterator handle(s); heap content *VIterC
 type VIterC struct {
 	Kind  int // 0 string, 1 map
 	Str   *VStr
@@ -469,10 +473,28 @@ func (ex *Exec) merge(c *Term, a, b Value) Value {
 		return out
 	case *VIter:
 		y := b.(*VIter)
-		if x.Obj != y.Obj {
-			panic(unsupported("merge of distinct iterators"))
+		out := &VIter{}
+		for _, al := range x.Alts {
+			g := ts.And(c, al.G)
+			if !g.IsFalse() {
+				out.Alts = append(out.Alts, IterAlt{g, al.Obj})
+			}
 		}
-		return a
+	LI:
+		for _, al := range y.Alts {
+			g := ts.And(nc, al.G)
+			if g.IsFalse() {
+				continue
+			}
+			for i := range out.Alts {
+				if out.Alts[i].Obj == al.Obj {
+					out.Alts[i].G = ts.Or(out.Alts[i].G, g)
+					continue LI
+				}
+			}
+			out.Alts = append(out.Alts, IterAlt{g, al.Obj})
+		}
+		return out
 	case *VIterC:
 		y := b.(*VIterC)
 		if x.Kind != y.Kind || len(x.Slots) != len(y.Slots) {
